@@ -82,11 +82,21 @@ partial def parseList : List String → Option (List (Prog NS) × List Nat × Li
         | none => none
       | _, _ => none
     | none => none
-  | "P" :: id :: a :: b :: c :: d :: e :: f :: g :: h :: req :: mode :: w :: name :: extra :: lgs :: rest =>
-    match id.toNat?, req.toNat?, parseMode mode, parseLogs lgs, extra.toNat? with
-    | some id, some req, some md, some (nlog, mark), some extra =>
+  | "P" :: id :: a :: b :: c :: d :: e :: f :: g :: h :: req :: mode :: w :: name :: extra :: lgs :: rest0 =>
+    -- the EVM call made from inside the native action: `-` or `[ <gas allowance> <token program> ]`
+    let innerP : Option (List (Nat × List (Prog NS)) × List Nat × List String) :=
+      match rest0 with
+      | "-" :: rest => some ([], [], rest)
+      | "[" :: g :: rest =>
+        match g.toNat?, parseList rest with
+        | some g, some (body, ms, r) => some ([(g, body)], ms, r)
+        | _, _ => none
+      | _ => none
+    match id.toNat?, req.toNat?, parseMode mode, parseLogs lgs, extra.toNat?, innerP with
+    | some id, some req, some md, some (nlog, mark), some extra, some (inner, ims, rest) =>
       match hdrOf id [a, b, c, d, e, f, g, h], parseList rest with
-      | some hd, some (ns, ms, r) =>
+      | some hd, some (ns, ms0, r) =>
+        let ms := ims ++ ms0
         let rf := factsOf name
         let sh := match rf with | some rf => shapeOf rf | none => RunShape.tidy
         let met := match rf with | some rf => metered rf | none => false
@@ -104,9 +114,9 @@ partial def parseList : List String → Option (List (Prog NS) × List Nat × Li
           | .need r => if n.contains (resBase + r) then (.err, 999999 :: n, lg) else (.ok, id :: n', lg)
         -- what `Run` writes outside the native action (only performed when the regenerated shape says it does)
         let out : NS → NS := fun n => (leakBase + id) :: n
-        some (.pre hd req sh out [] act :: ns, ms, r)
+        some (.pre hd req sh out inner act :: ns, ms, r)
       | _, _ => none
-    | _, _, _, _, _ => none
+    | _, _, _, _, _, _ => none
   | _ => none
 
 def showNats (xs : List Nat) : String :=
